@@ -434,6 +434,9 @@ pub struct EvEnv {
     /// only this many client steps after the one that follows its server frame (0 = lock-step).
     /// A different default schedule, still a legal one; deviations are explored around it.
     pub update_latency: u32,
+    /// Baseline batching of the update channel: pending update messages are handed over only in
+    /// every n-th round (0 = no batching), i.e. they arrive in bursts.
+    pub update_batch: u32,
 }
 
 #[derive(Clone, Debug, Serialize, Default)]
@@ -762,6 +765,9 @@ impl EvCell {
 
     /// Number of in-flight update messages old enough to be delivered under the baseline latency.
     fn deliverable_updates(&self, x: &EvExec, c: usize) -> usize {
+        if self.env.update_batch > 1 && (x.round as u32 + 1) % self.env.update_batch != 0 {
+            return 0;
+        }
         x.sim.clients[c].s2c[UPD]
             .iter()
             .filter(|m| m.frame + self.env.update_latency <= x.sim.server_frames)
